@@ -4,13 +4,14 @@ CONSTANT Family = "graph"
 CONSTANT W1 = 2
 CONSTANT W2 = 2
 CONSTANT W3 = 1
-CONSTANT FilterLevel = 2
+CONSTANT FilterLevel = 1
 CONSTANT BodyLevel = 1
 INVARIANT Refines
 INVARIANT ErrorsExact
 INVARIANT OthersUntouched
 INVARIANT KeepSetExact
 INVARIANT KeepOrder
+INVARIANT ReachAgree
 INVARIANT MapWellFormed
 INVARIANT MapNames
 INVARIANT FullyExpanded
